@@ -18,6 +18,8 @@ CM2 == {{}, {"A"}}
 CM4 == SUBSET ChAB
 CMS == {{}, {"A"}, {"B", "*"}}
 RM2 == {{}, {"r1"}}
+RM1 == {{}}
+CMB == {{}, {"B"}}
 RM3 == {{}, {"r1"}, {"r1", "r2"}}
 
 (* exhaustive model: a user grant, a role grant, a role assignment, a mixed one touching the other user *)
@@ -35,6 +37,9 @@ GS3 == { G({<<"u1", "A">>}, {}),
 GS2 == { G({<<"u1", "A">>}, {}),
          G({<<"r1", "B">>}, {<<"u1", "r1">>}) }
 GM5 == GM4 \cup { G({<<"u2", "A">>, <<"r2", "B">>, <<"r1", "A">>}, {<<"u1", "r2">>, <<"u2", "r1">>}) }
+(* split-load search: admin channel B, document grants A, role membership through the document *)
+GR2 == { G({<<"u1", "A">>}, {}),
+         G({<<"r1", "A">>}, {<<"u1", "r1">>}) }
 (* simulation: richer tables over two users and two roles *)
 GM8 == GM4 \cup { G({}, {}),
                   G({<<"u1", "A">>, <<"u2", "B">>}, {<<"u2", "r1">>}),
